@@ -204,11 +204,41 @@ func IList(xs []int) string {
 
 // Bytes renders a Go string as a Coq list of byte values.
 func Bytes(s string) string {
-	items := make([]string, len(s))
-	for i := 0; i < len(s); i++ {
-		items[i] = strconv.Itoa(int(s[i]))
+	// long runs of one byte are written as (rpt n c): parsing tens of thousands of numerals per case dominates the evaluation otherwise
+	var parts []string
+	var cur []string
+	flush := func() {
+		if len(cur) > 0 {
+			parts = append(parts, List(cur))
+			cur = nil
+		}
 	}
-	return List(items)
+	for i := 0; i < len(s); {
+		j := i
+		for j < len(s) && s[j] == s[i] {
+			j++
+		}
+		if j-i >= 64 {
+			flush()
+			parts = append(parts, fmt.Sprintf("rpt %d %d", j-i, s[i]))
+		} else {
+			for k := i; k < j; k++ {
+				cur = append(cur, strconv.Itoa(int(s[k])))
+			}
+		}
+		i = j
+	}
+	flush()
+	switch len(parts) {
+	case 0:
+		return "[]"
+	case 1:
+		if strings.HasPrefix(parts[0], "[") {
+			return parts[0]
+		}
+		return "(" + parts[0] + ")"
+	}
+	return "(" + strings.Join(parts, " ++ ") + ")"
 }
 
 func SortedKeys(m map[string]int) []string {
